@@ -927,12 +927,31 @@ def enumerate_faults(hist: Dict[str, Any]) -> Dict[str, Any]:
                     v[i: i + 1] = [f, copy.deepcopy(st)]
                     variants.append(("io-" + kind, at, v))
             break
+    # crash points of the first backport: 2 per block while the operations are updated (recovery:
+    # backport again), then the first 8 steps of the re-assembly (recovery: clear + assemble)
+    m = Model()
+    for i, st in enumerate(steps):
+        if st["op"] == "backport" and m.movable:
+            n = len(m.assembled_ops)
+            for at in range(1, 2 * n + 9):
+                rec = [{"op": "backport"}] if at <= 2 * n else [{"op": "clear"}, {"op": "assemble"}]
+                v = copy.deepcopy(steps)
+                v[i: i + 1] = [{"op": "crash_in_backport", "at": at}] + rec
+                variants.append(("crash-backport", at, v))
+            break
+        try:
+            m.apply(st)
+        except IllFormed:
+            break
     crash_exhausted = False
     for kind, at, v in variants:
         if kind == "crash" and crash_exhausted:
             continue
         h = {"steps": v, "meta": hist["meta"]}
-        res = run_history(h)
+        try:
+            res = run_history(h)
+        except IllFormed:
+            continue  # the variant is not a history the model can judge
         out["runs"] += 1
         if kind == "crash" and res["stats"].get("crashes_fired", 0) == 0:
             crash_exhausted = True  # 'at' is beyond the last internal step: enumeration complete
